@@ -539,10 +539,12 @@ def plan(tier):
 
 def describe(results, agg):
     return {
-        "rule": "a run = 2-3 real threads x 1-6 operations (einx calls incl. first-time compilation, with-blocks, lookups by name/tensor, fake-module imports, "
-                "register/register_on_import) under a seeded baton scheduler (random p in {0.3..0.003} x5 inside registry/cache/tracing files, or PCT-style forced points), "
-                "checked for a witness sequential order against BackendRegistryState. distinct_nontrivial = distinct (programs+warm set, sequence of (thread, file:line) at "
-                "context switches) pairs with at least one switch inside frontend/backend.py, tracer/graph.py, util/lru_cache.py or frontend/api.py",
+        "rule": "a run = 2-3 real threads x 1-6 operations (einx calls incl. first-time compilation, calls of adapters shared by the threads, solve_axes, with-blocks, lookups by name/tensor, "
+                "fake-module imports, register/register_on_import of synthetic backends whose factories may themselves call einx, thread-local device/namespace stack wrappers) under a seeded "
+                "baton scheduler (random p in {0.3..0.003} x5 inside registry/cache/tracing files, or PCT-style forced points; every 4th run with EINX_CACHE_SIZE=2); locks, events and conditions "
+                "created by einx are simulated (deadlock detection, virtual-time timeouts). Each history is checked for a witness sequential order against BackendRegistryState. "
+                "distinct_nontrivial = distinct (programs+warm set, sequence of (thread, file:line) at context switches) pairs with at least one switch inside frontend/backend.py, "
+                "tracer/graph.py, util/lru_cache.py, frontend/api.py or the device/namespace stack files",
         "logical_steps": agg["stats"].get("steps", 0),
         "context_switches": agg["stats"].get("switches", 0),
         "preemption_set": "every file under einx/ except util/solver.py, line granularity; opcode granularity in frontend/backend.py, tracer/graph.py, util/lru_cache.py for half of the thorough-tier runs",
